@@ -231,8 +231,11 @@ def cells_on_one_trainer(chk, tab, mm, *, variant, rng, T, guards):
             for h in hdrs[1:]:
                 form = h["hp"].get("form")
                 h["hp"] = dict(hdrs[0]["hp"])
-                for k in [k for k in h["hp"] if k.startswith("lr_")]:
-                    h["hp"][k] = h["hp"][k] * rng.choice([0.5, 2.0, 0.25])
+                # ONE learning rate differs, every other hyperparameter is shared: exactly the monitors whose
+                # configuration involves that rate must be private to the cell
+                lrs = [k for k in h["hp"] if k.startswith("lr_")]
+                k = rng.choice(lrs)
+                h["hp"][k] = h["hp"][k] * rng.choice([0.5, 2.0, 0.25])
                 if form is not None:
                     h["hp"]["form"] = hdrs[0]["hp"].get("form")
                 h["delay"], h["dmax"] = hdrs[0]["delay"], hdrs[0]["dmax"]
